@@ -149,6 +149,22 @@ def run(tier, rep):
     # ---- alpha-renaming end to end
     progs = fam_c19.programs(tier)
     cases, counts = famcheck.run_families("C19", rep, progs, "c19", goinvalid_is_violation=True, crash_is_violation=True, maxsteps=20000)
+    # ---- the name supply itself, at its linearization point (hook in Gensym::gensym): one shared counter that never goes back
+    # (Gensym.tla), and for every run the names issued although the user had given a function that name (GensymTrace.tla)
+    import gensymtrace, corpus
+    gcases = [{"id": c["id"], "path": c["path"], "ident": c["ident"]} for c in cases]
+    gcases += [{"id": "corpus:" + c["name"], "path": c["src"], "ident": "corpus:" + c["name"]} for c in corpus.single_file_cases() + corpus.package_cases()]
+    for cfg, want in (("Gensym_small.cfg", None), ("Gensym_reset.cfg", "Unique"), ("Gensym_capture.cfg", "NoCapture")):
+        g = run_tlc("MCGensym", cfg, workers=2, xmx="2g", timeout=300)
+        if g.violated != want:
+            if want is None:
+                rep.violation(f"model:{cfg}:{g.violated}", {"trace": g.trace[-3:]})
+            else:
+                raise ToolError(f"model self-test: {cfg} should violate {want}, got {g.violated}")
+    gst = gensymtrace.validate(gcases, rep, "c19")
+    rep.coverage["gensym_trace"] = gst
+    if gst["programs"] < 200 or gst["names_issued"] < 5000 or gst["programs_with_a_function_named_like_a_temporary"] < 5:
+        raise ToolError(f"vacuity: gensym traces too thin: {gst}")
     base = next(c for c in cases if c["ident"] == "c19:base")
     if base["cls"] != "agree":
         raise ToolError("the base program of the renaming family does not agree: " + str(base["cls_detail"])[:300])
